@@ -203,6 +203,8 @@ def run(m, tier):
     results = [r1_registry(m), r2_handlers(m), r3_reader_item(m), r3, r4, r5, rr.rule_semicolon(m, "C14.R7"), rr.rule_directive_splice(m, "C14.R8")]
     from rules import guard_rules
     results.append(guard_rules.alt_delimiter_rule(m, "C14.R9", "C99Preprocessor"))
+    from rules import regex_rules
+    results.append(regex_rules.c14_detector_rule(m, "C14.R10"))
     from rules import shapes_rules
     results += shapes_rules.c14_rules(m)
     expl = ("Decides structural clauses of C14: registry exhaustiveness (Cpp_*_Stmt classes == CPP_CLASS_NAMES); for each of the 14 "
